@@ -154,3 +154,53 @@ def twin_schedules(rng, props, n):
                 steps.append({"a": "recv", "c": c, "dir": "cs"})
         out.append({"id": "twin-%d" % i, "cfg": cfg, "steps": steps})
     return out
+
+
+def restart_schedules(rng, props, n):
+    """A client program is restarted behind the same address: client 1 leaves (its Disconnect datagrams are lost, or reach the
+    server), and client 11 -- a new client object with a fresh connect token for the SAME client id -- shows up at the server under
+    the address of client 1 (the same relay socket) before or after the server gave up on the old session.  Whatever the server
+    makes of it, both of its layers agree on who is connected after every update, connects and disconnects alternate per id, and
+    nothing of the old session leaks into the new one.  A bystander (2) keeps its session."""
+    out = []
+    for i in range(n):
+        dt = rng.choice([50, 100, 250])
+        timeout = rng.choice([2, 2, 5])
+        cfg = {"clients": [1, 2, 11], "alias": {"11": 1}, "twins": [[11, 1]], "share_up": {"11": 1}, "max_clients": rng.choice([2, 4]),
+               "timeout_s": timeout, "props": props, "allow_timeouts": True}
+        steps = []
+        tag = [1]
+
+        def msg(c, d):
+            steps.append({"a": "send", "c": c, "dir": d, "ch": rng.choice([0, 1, 2, 2]), "tag": tag[0], "len": rng.choice([5, 300, 1201])})
+            tag[0] += 1
+
+        def tick(cs, up=None, down=None, traffic=True):
+            for c in cs:
+                if traffic and rng.random() < 0.5:
+                    msg(c, rng.choice(["cs", "sc"]))
+                steps.append({"a": "cstep", "c": c, "dt": dt})
+                steps.append({"a": "relay", "c": c, "dir": "up", "ops": (up or {}).get(c, ["pass"])})
+            steps.append({"a": "sstep", "dt": dt})
+            for c in cs:
+                steps.append({"a": "relay", "c": c, "dir": "down", "ops": (down or {}).get(c, ["pass"])})
+                if rng.random() < 0.6:
+                    steps.append({"a": "recv", "c": c, "dir": rng.choice(["cs", "sc"])})
+        # 1 and 2 connect and talk
+        for _ in range(rng.randint(8, 14)):
+            tick([1, 2], traffic=_ > 5)
+        # client 1 leaves; its farewell is lost (the usual case when a program is killed) or gets through
+        lost = rng.random() < 0.7
+        steps.append({"a": "disc", "c": 1, "who": rng.choice(["client", "client_transport"])})
+        for _ in range(2):
+            tick([1, 2], up={1: ["drop"] if lost else ["pass"]}, down={1: ["drop"]}, traffic=False)
+        # the restarted program takes over the address: at once, or after a while (before / after the server's timeout)
+        wait = rng.choice([0, 0, 2, (timeout * 1000) // dt // 2, (timeout * 1000) // dt + 2])
+        for _ in range(wait):
+            tick([2])
+        steps.append({"a": "takeover", "c": 11})
+        for _ in range((timeout * 1000) // dt + rng.randint(6, 16)):
+            tick([2, 11])
+        steps.append({"a": "round", "dt": dt, "n": 6})
+        out.append({"id": "restart-%d" % i, "cfg": cfg, "steps": steps})
+    return out
